@@ -132,6 +132,25 @@ macro_rules! arr_runner {
                     out.push('\n');
                     continue;
                 }
+                if name == "openmut" {
+                    // drop the handle, open the mutable view and drop it again: must not write
+                    h = None;
+                    let r = guarded(|| {
+                        let _t = $Mut::<V>::from_bytes_mut(unsafe { buf.static_mut() });
+                    });
+                    out.push_str(&format!("{} r={} d={:016x}", i, if r.is_some() { "U" } else { "P" }, fnv(buf.bytes())));
+                    if !buf.guards_intact() {
+                        out.push_str(" g=BAD");
+                    }
+                    if full {
+                        out.push_str(&format!(" b={}", hex(buf.bytes())));
+                    }
+                    out.push('\n');
+                    if r.is_none() {
+                        break;
+                    }
+                    continue;
+                }
                 let is_mut = matches!(name, "ins" | "rem" | "take" | "gmut");
                 let r: Option<(String, u64)> = guarded(|| {
                     let res;
